@@ -21,6 +21,9 @@ Theorem default_tags_as_modelled : default_tags_ok gen_default_tags = true.
 Proof. vm_compute. reflexivity. Qed.
 Theorem decorator_effects_are_implied : decorators_ok gen_decorators = true.
 Proof. vm_compute. reflexivity. Qed.
+(* the scalar check and the HomothetyOperator built by __rmul__ / __truediv__, as read from the source *)
+Theorem scale_paths_as_modelled : gen_scale_paths = scale_paths_modelled.
+Proof. vm_compute. reflexivity. Qed.
 (* symmetric implies ... and A.T is A *)
 Theorem symmetric_returns_self : symmetric_rows_return_self gen_tag_table = true.
 Proof. vm_compute. reflexivity. Qed.
@@ -119,6 +122,17 @@ Theorem moveaxis_transpose_matrix :
 Proof. exact gather_transpose. Qed.
 Print Assumptions moveaxis_transpose_matrix.
 
+(* the public construction paths s * A, A * s, A / s, -A only build HomothetyOperators within the guard
+   of the class (a 0-d value): what they accept (scale_ctor, tied to the source by
+   scale_paths_as_modelled) is a legal parameter, so tags_truthful applies to what they return *)
+Theorem scaling_builds_legal_homothety :
+  forall (K : Type) (k0 k1 : K) kmul v, scale_ctor v = CtorOk ->
+  forall k st, cm_legal K (cm_homothety K k0 k1 kmul) (mkHm K k v st).
+Proof. exact scaled_homothety_legal. Qed.
+Print Assumptions scaling_builds_legal_homothety.
+Theorem scaling_accepts_only_scalars : forall v, scale_ctor v = CtorOk <-> v = [].
+Proof. exact scale_ctor_iff. Qed.
+
 (* ---------- non-vacuity ---------- *)
 (* the ring hypothesis is inhabited, the table declares something, legal parameters exist *)
 Example ring_hypothesis_inhabited : ring_theory 0%Z 1%Z Z.add Z.mul Z.sub Z.opp (@eq Z).
@@ -155,3 +169,16 @@ Example qurot_square_guard_needed :
   cm_in Z (cm_qurot Z 0%Z 1%Z Z.add Z.mul Z.sub) p = [[3%Z]; [3%Z]] /\
   cm_out Z (cm_qurot Z 0%Z 1%Z Z.add Z.mul Z.sub) p = Some [[2%Z; 3%Z]; [2%Z; 3%Z]].
 Proof. exact qurot_square_needs_guard. Qed.
+(* ... and so is the guard `0-d value` of HomothetyOperator, which the scalar check provides *)
+Example homothety_square_guard_needed :
+  let p := mkHm Z 2%Z [1%Z] [[]; [2%Z; 3%Z]] in
+  let q := mkHm Z 2%Z [1%Z; 1%Z] [[3%Z]] in
+  cm_in Z (cm_homothety Z 0%Z 1%Z Z.mul) p = [[]; [2%Z; 3%Z]] /\
+  cm_out Z (cm_homothety Z 0%Z 1%Z Z.mul) p = Some [[1%Z]; [2%Z; 3%Z]] /\
+  cm_in Z (cm_homothety Z 0%Z 1%Z Z.mul) q = [[3%Z]] /\
+  cm_out Z (cm_homothety Z 0%Z 1%Z Z.mul) q = Some [[1%Z; 3%Z]].
+Proof. exact homothety_square_needs_guard. Qed.
+Example scalar_check_rejects_arrays :
+  scale_ctor [] = CtorOk /\ scale_ctor [1%Z] = CtorValueError /\ scale_ctor [1%Z; 1%Z] = CtorValueError /\
+  scale_ctor [2%Z] = CtorValueError.
+Proof. exact scale_ctor_rejects_arrays. Qed.
